@@ -70,8 +70,17 @@ func sentinelDst(dst []byte, extra int, spare int) []byte {
 	return buf
 }
 
+// window returns a copy of s that is a window of a larger buffer: valid bases follow it in the
+// backing array (cap > len), as when a caller slices a read out of a larger sequence.
+func window(s []byte) []byte {
+	buf := make([]byte, 0, len(s)+12)
+	buf = append(buf, s...)
+	buf = append(buf, "ACGTACGTACGT"...)
+	return buf[:len(s)]
+}
+
 func checkC13(c C13Case, o *Obs) error {
-	data := []byte(c.Data)
+	data := window(c.Data)
 	dataCopy := bytes.Clone(data)
 	o.Class("kind:" + c.Kind)
 	o.ClassIf(len(c.Dst) > 0, "non-empty dst")
